@@ -370,3 +370,263 @@ Proof.
   intros Hs. apply (sub_rel_one r tw [] Hs) with (whole := s) (pre := []); try reflexivity.
   apply re_sub_frame.
 Qed.
+
+(* ====================================================================== *)
+(* Evaluating a pattern on a string built the way the pattern reads it     *)
+(* ====================================================================== *)
+Require Import OV.Base.C04_Tmpl.
+
+Definition hd_notin (cs : cset) (s : str) : bool :=
+  match s with [] => true | c :: _ => negb (cmem c cs) end.
+Definition all_in (cs : cset) (v : str) : bool := forallb (fun c => cmem c cs) v.
+Definition within (n : nat) (mx : option nat) : bool :=
+  match mx with None => true | Some j => Nat.leb n j end.
+
+Lemma run_len_exact cs v rest mx :
+  all_in cs v = true -> within (length v) mx = true ->
+  (hd_notin cs rest = true \/ mx = Some (length v)) ->
+  run_len cs (v ++ rest) mx = length v.
+Proof.
+  revert mx. induction v as [|c t IH]; intros mx Hv Hw Hr.
+  - cbn [app length]. destruct rest as [|c r]; [reflexivity|]. cbn [run_len].
+    destruct Hr as [Hr| ->]; [|reflexivity].
+    cbn in Hr. apply negb_true_iff in Hr. rewrite Hr. destruct mx as [[|j]|]; reflexivity.
+  - cbn [all_in forallb] in Hv. apply andb_true_iff in Hv. destruct Hv as [Hc Ht].
+    cbn [app run_len length]. rewrite Hc.
+    destruct mx as [[|j]|].
+    + cbn in Hw. discriminate.
+    + f_equal. apply IH; auto. cbn [option_map pred]. destruct Hr as [Hr|Hr]; [left; exact Hr|right].
+      inversion Hr. reflexivity.
+    + f_equal. apply IH; auto. destruct Hr as [Hr|Hr]; [left; exact Hr|discriminate].
+Qed.
+
+Lemma try_counts_first R s p g (k : cont R) mn n x :
+  k (skipn n s) (p + N.of_nat n) g = Some x -> try_counts R s p g k mn n = Some x.
+Proof. intros H. destruct n; cbn [try_counts]; rewrite H; reflexivity. Qed.
+
+Lemma skipn_app_exact {A} (v rest : list A) : skipn (length v) (v ++ rest) = rest.
+Proof. induction v; cbn; auto. Qed.
+
+(* greedy-run lemma: a Rep over a run that is maximal (the next character is outside the
+   set, or the bound is reached) takes the whole run on its first attempt *)
+Lemma m_rep_max R cs mn mx v rest p g (k : cont R) x :
+  all_in cs v = true -> (mn <= length v)%nat -> within (length v) mx = true ->
+  (hd_notin cs rest = true \/ mx = Some (length v)) ->
+  k rest (p + blen v) g = Some x ->
+  m R (Rep cs mn mx) (v ++ rest) p g k = Some x.
+Proof.
+  intros Hv Hmn Hw Hr Hk. cbn [m]. rewrite (run_len_exact cs v rest mx Hv Hw Hr).
+  replace (Nat.ltb (length v) mn) with false by (symmetry; apply Nat.ltb_ge; lia).
+  apply try_counts_first. rewrite skipn_app_exact. exact Hk.
+Qed.
+
+(* literal-prefix lemma: the key, in any accepted casing, is consumed character by character *)
+Definition casing_ok (tbl : list (N * cset)) (k K : str) : Prop :=
+  Forall2 (fun c C => cmem C (ci_lookup tbl c) = true) k K.
+
+Lemma m_keyseq R tbl k K : casing_ok tbl k K -> forall rest s p g (kont : cont R),
+  m R (keyseq tbl k rest) (K ++ s) p g kont = m R rest s (p + blen K) g kont.
+Proof.
+  induction 1 as [|c C k K Hc _ IH]; intros rest s p g kont.
+  - cbn. rewrite N.add_0_r. reflexivity.
+  - cbn [keyseq app m]. rewrite Hc. rewrite IH. f_equal. rewrite blen_cons. lia.
+Qed.
+
+(* the "reads as" relation: gm r pre s pre' s' G — starting after the prefix [pre] of the
+   subject, r consumes [s] down to [s'] (the consumed text is appended to pre giving pre'),
+   every Rep taking a maximal run, recording the groups G *)
+Inductive gm (tbl : list (N * cset)) : re -> str -> str -> str -> str -> groups -> Prop :=
+| gm_eps pre s : gm tbl Eps pre s pre s []
+| gm_chr cs c pre rest : cmem c cs = true -> gm tbl (Chr cs) pre (c :: rest) (pre ++ [c]) rest []
+| gm_seq a b pre s pre1 s1 pre2 s2 G1 G2 :
+    gm tbl a pre s pre1 s1 G1 -> gm tbl b pre1 s1 pre2 s2 G2 -> gm tbl (Seq a b) pre s pre2 s2 (G2 ++ G1)
+| gm_rep cs mn mx v pre rest :
+    all_in cs v = true -> (mn <= length v)%nat -> within (length v) mx = true ->
+    (hd_notin cs rest = true \/ mx = Some (length v)) ->
+    gm tbl (Rep cs mn mx) pre (v ++ rest) (pre ++ v) rest []
+| gm_group i a pre s pre' s' G :
+    gm tbl a pre s pre' s' G -> gm tbl (Group i a) pre s pre' s' ((i, (blen pre, blen pre')) :: G)
+| gm_key k K r' pre s pre' s' G :
+    casing_ok tbl k K -> gm tbl r' (pre ++ K) s pre' s' G -> gm tbl (keyseq tbl k r') pre (K ++ s) pre' s' G.
+
+Lemma gm_sound R tbl r pre s pre' s' G : gm tbl r pre s pre' s' G ->
+  forall g (k : cont R) x, k s' (blen pre') (G ++ g) = Some x -> m R r s (blen pre) g k = Some x.
+Proof.
+  induction 1 as [pre s|cs c pre rest Hc|a b pre s pre1 s1 pre2 s2 G1 G2 Ha IHa Hb IHb
+                  |cs mn mx v pre rest Hv Hmn Hw Hr|i a pre s pre' s' G Ha IHa|k K r' pre s pre' s' G Hk Hr IH];
+    intros g kont x Hx.
+  - exact Hx.
+  - cbn [m]. rewrite Hc. rewrite blen_app in Hx. exact Hx.
+  - cbn [m]. apply IHa. apply IHb. rewrite <- app_assoc in Hx. exact Hx.
+  - apply m_rep_max; auto. rewrite blen_app in Hx. exact Hx.
+  - cbn [m]. apply IHa. exact Hx.
+  - rewrite (m_keyseq R tbl k K Hk). rewrite <- blen_app. apply IH. exact Hx.
+Qed.
+
+Lemma gm_match_at tbl r s pre' G : gm tbl r [] s pre' [] G -> match_at r s 0 = Some (blen pre', G).
+Proof.
+  intros H. unfold match_at. apply (gm_sound _ tbl r [] s pre' [] G H [] _ _). rewrite app_nil_r. reflexivity.
+Qed.
+
+(* a match of the whole (non-empty) subject: re_sub returns the expanded template *)
+Lemma re_sub_whole r t s g : s <> [] -> match_at r s 0 = Some (blen s, g) -> re_sub r t s = expand t s g.
+Proof.
+  intros Hs H. unfold re_sub. destruct s as [|c rest]; [congruence|]. cbn [sub_go]. rewrite H.
+  rewrite blen_cons. replace (0 <? 1 + blen rest) with true by lia.
+  rewrite sub_go_skip. replace (N.to_nat (1 + blen rest - 0) - 1)%nat with (length rest) by (unfold blen; lia).
+  rewrite skipn_all. cbn [sub_go]. apply app_nil_r.
+Qed.
+
+Lemma slice_mid a b c : slice (a ++ b ++ c) (blen a) (blen (a ++ b)) = b.
+Proof.
+  rewrite blen_app. rewrite slice_suffix0. replace (N.to_nat (blen b)) with (length b) by (unfold blen; lia).
+  rewrite firstn_app, firstn_all, Nat.sub_diag. cbn. apply app_nil_r.
+Qed.
+Lemma slice_head a c : slice (a ++ c) 0 (blen a) = a.
+Proof. apply (slice_mid [] a c). Qed.
+Lemma slice_tail a c : slice (a ++ c) (blen a) (blen (a ++ c)) = c.
+Proof. pose proof (slice_mid a c []) as H. rewrite app_nil_r in H. exact H. Qed.
+
+(* the two ways the rendering theorems conclude *)
+Lemma gm_sub_two tbl r h v t mask G :
+  gm tbl r [] (h ++ v ++ t) (h ++ v ++ t) [] G -> h ++ v ++ t <> [] ->
+  gget G 1 = Some (0, blen h) -> gget G 2 = Some (blen (h ++ v), blen (h ++ v ++ t)) ->
+  re_sub r (t2 mask) (h ++ v ++ t) = h ++ mask ++ t.
+Proof.
+  intros H Hne G1 G2. rewrite (re_sub_whole r _ _ G Hne (gm_match_at _ _ _ _ _ H)).
+  rewrite (expand_t2 _ _ _ _ _ _ _ G1 G2). rewrite slice_head. f_equal. f_equal.
+  rewrite (app_assoc h v t). apply slice_tail.
+Qed.
+
+Lemma gm_sub_one tbl r h v mask G :
+  gm tbl r [] (h ++ v) (h ++ v) [] G -> h ++ v <> [] ->
+  gget G 1 = Some (0, blen h) ->
+  re_sub r (t1 mask) (h ++ v) = h ++ mask.
+Proof.
+  intros H Hne G1. rewrite (re_sub_whole r _ _ G Hne (gm_match_at _ _ _ _ _ H)).
+  unfold t1. cbn [app expand]. rewrite G1, slice_head. f_equal.
+  rewrite <- (app_nil_r (map TLit mask)). rewrite expand_lits. cbn. apply app_nil_r.
+Qed.
+
+(* ---------- side conditions on character sets ---------- *)
+Definition range_disj (a b : N * N) : bool := (snd a <? fst b) || (snd b <? fst a).
+Definition cset_disj (a b : cset) : bool := forallb (fun x => forallb (range_disj x) b) a.
+
+Lemma cset_disj_sound a b c : cset_disj a b = true -> cmem c a = true -> cmem c b = false.
+Proof.
+  unfold cset_disj. intros H Ha. induction a as [|[lo hi] a IH]; [discriminate|].
+  cbn [forallb] in H. apply andb_true_iff in H. destruct H as [H1 H2].
+  cbn [cmem] in Ha. apply orb_true_iff in Ha. destruct Ha as [Ha|Ha]; [|auto].
+  clear IH H2. induction b as [|[lo' hi'] b IH]; [reflexivity|].
+  cbn [forallb] in H1. apply andb_true_iff in H1. destruct H1 as [H1 H3].
+  cbn [cmem]. rewrite (IH H3), orb_false_r. unfold range_disj in H1. cbn [fst snd] in H1. lia.
+Qed.
+
+Lemma hd_notin_run cs cs' w rest :
+  all_in cs' w = true -> cset_disj cs' cs = true -> hd_notin cs rest = true -> hd_notin cs (w ++ rest) = true.
+Proof.
+  intros Hw Hd Hr. destruct w as [|c w]; [exact Hr|]. cbn [app hd_notin].
+  cbn [all_in forallb] in Hw. apply andb_true_iff in Hw. destruct Hw as [Hc _].
+  rewrite (cset_disj_sound _ _ _ Hd Hc). reflexivity.
+Qed.
+
+(* cover check: every code point of [lo, lo + fuel) up to hi lies in the set *)
+Fixpoint find_hi (c : N) (l : cset) : option N :=
+  match l with
+  | [] => None
+  | (lo, hi) :: t => if (lo <=? c) && (c <=? hi) then Some hi else find_hi c t
+  end.
+Fixpoint covers (fuel : nat) (l : cset) (x hi : N) : bool :=
+  if hi <? x then true else
+  match fuel with
+  | O => false
+  | S f => match find_hi x l with Some h => covers f l (h + 1) hi | None => false end
+  end.
+
+Lemma find_hi_sound c l h : find_hi c l = Some h -> c <= h /\ forall d, c <= d <= h -> cmem d l = true.
+Proof.
+  induction l as [|[lo hi] t IH]; [discriminate|]. cbn [find_hi cmem].
+  destruct ((lo <=? c) && (c <=? hi)) eqn:E.
+  - intros H. inversion H; subst. split; [lia|]. intros d Hd. replace ((lo <=? d) && (d <=? h)) with true by lia. reflexivity.
+  - intros H. destruct (IH H) as [H1 H2]. split; [exact H1|]. intros d Hd. rewrite (H2 d Hd). apply orb_true_r.
+Qed.
+
+Lemma covers_sound fuel l : forall x hi, covers fuel l x hi = true -> forall d, x <= d <= hi -> cmem d l = true.
+Proof.
+  induction fuel as [|f IH]; intros x hi H d Hd; cbn [covers] in H.
+  - destruct (hi <? x) eqn:E; [lia|discriminate].
+  - destruct (hi <? x) eqn:E; [lia|]. destruct (find_hi x l) as [h|] eqn:F; [|discriminate].
+    destruct (find_hi_sound _ _ _ F) as [H1 H2].
+    destruct (N.le_gt_cases d h); [apply H2; lia|]. apply (IH _ _ H). lia.
+Qed.
+
+Lemma cmem_app c a b : cmem c (a ++ b) = cmem c a || cmem c b.
+Proof. induction a as [|[lo hi] a IH]; [reflexivity|]. cbn [app cmem]. rewrite IH. apply orb_assoc. Qed.
+
+Lemma all_in_impl (P : N -> bool) cs v :
+  (forall c, P c = true -> cmem c cs = true) -> forallb P v = true -> all_in cs v = true.
+Proof.
+  intros H. unfold all_in. induction v as [|c v IH]; [reflexivity|]. cbn [forallb]. intros Hv.
+  apply andb_true_iff in Hv. destruct Hv as [H1 H2]. rewrite (H _ H1), (IH H2). reflexivity.
+Qed.
+
+Lemma hd_notin_run1 cs cs' w rest :
+  all_in cs' w = true -> (1 <= length w)%nat -> cset_disj cs' cs = true -> hd_notin cs (w ++ rest) = true.
+Proof.
+  intros Hw Hl Hd. destruct w as [|c w]; [cbn in Hl; lia|]. cbn [app hd_notin].
+  cbn [all_in forallb] in Hw. apply andb_true_iff in Hw. destruct Hw as [Hc _].
+  rewrite (cset_disj_sound _ _ _ Hd Hc). reflexivity.
+Qed.
+
+Lemma hd_notin_sym cs cs' c rest : cmem c cs' = true -> cset_disj cs' cs = true -> hd_notin cs (c :: rest) = true.
+Proof. intros Hc Hd. cbn [hd_notin]. rewrite (cset_disj_sound _ _ _ Hd Hc). reflexivity. Qed.
+
+(* concluding lemmas in the form the derivation tactic produces (left-nested prefixes) *)
+Lemma gm_sub_two' tbl r s out pre' h h1 v hv t pre'' mask G :
+  gm tbl r [] s pre' [] G -> pre' = s -> s = h ++ v ++ t -> out = h ++ mask ++ t -> s <> [] ->
+  gget G 1 = Some (blen (@nil N), blen h1) -> h1 = h ->
+  gget G 2 = Some (blen hv, blen pre'') -> hv = h ++ v -> pre'' = s ->
+  re_sub r (t2 mask) s = out.
+Proof.
+  intros H -> -> -> Hne G1 -> G2 -> ->. apply (gm_sub_two tbl r h v t mask G); auto.
+Qed.
+
+Lemma gm_sub_one' tbl r s out pre' h h1 v mask G :
+  gm tbl r [] s pre' [] G -> pre' = s -> s = h ++ v -> out = h ++ mask -> s <> [] ->
+  gget G 1 = Some (blen (@nil N), blen h1) -> h1 = h ->
+  re_sub r (t1 mask) s = out.
+Proof.
+  intros H -> -> -> Hne G1 ->. apply (gm_sub_one tbl r h v mask G); auto.
+Qed.
+
+Ltac vmr := vm_compute; reflexivity.
+Ltac solve_allin :=
+  lazymatch goal with
+  | |- all_in _ ?v = true =>
+      first [ match goal with H : all_in _ v = true |- _ => exact H end | vmr ]
+  end.
+Ltac solve_len :=
+  first [ apply Nat.le_0_l | assumption | solve [cbn [length]; repeat constructor] ].
+Ltac solve_hd :=
+  lazymatch goal with
+  | |- hd_notin _ [] = true => reflexivity
+  | |- hd_notin _ (_ ++ _) = true =>
+      first [ eapply hd_notin_run1; [solve_allin | solve_len | vmr]
+            | eapply hd_notin_run; [solve_allin | vmr | solve_hd] ]
+  | |- hd_notin _ (?c :: _) = true =>
+      first [ vmr
+            | match goal with H : cmem c _ = true |- _ => eapply hd_notin_sym; [exact H | vmr] end ]
+  end.
+Ltac solve_within :=
+  first [ reflexivity | apply Nat.leb_le; solve_len ].
+Ltac gm_go :=
+  lazymatch goal with
+  | |- gm _ (Seq _ _) _ _ _ _ _ => eapply gm_seq; [gm_go | gm_go]
+  | |- gm _ (Group _ _) _ _ _ _ _ => eapply gm_group; gm_go
+  | |- gm _ (keyseq _ _ _) _ _ _ _ _ => eapply gm_key; [eassumption | gm_go]
+  | |- gm _ (Chr _) _ _ _ _ _ =>
+      eapply gm_chr; first [ vmr | eassumption ]
+  | |- gm _ (Rep _ _ _) _ _ _ _ _ =>
+      eapply gm_rep; [ solve_allin | solve_len | solve_within | first [ left; solve_hd | right; reflexivity ] ]
+  end.
+Ltac norm_app := repeat rewrite <- app_assoc; cbn [app]; rewrite ?app_nil_r; reflexivity.
